@@ -32,6 +32,12 @@ var c18Patterns = []string{"ne*", "*", "a?pha", "{news,alpha}", "ne{ws,st}", "[a
 
 func genC18(r *Rng, tier string, idx int) *Plan {
 	p := &Plan{Profile: "pubsub", Knobs: map[string]int64{}, SKnobs: map[string]string{}}
+	if idx%1200 == 7 {
+		// more messages than a channel's queue holds, published while the channel does not run (prop_c18_flood.go)
+		p.Profile = "flood"
+		p.Knobs["n"] = int64(4100 + r.Intn(700))
+		return p
+	}
 	nsub := r.Range(2, 4)
 	npub := r.Range(1, 2)
 	p.Knobs["subs"], p.Knobs["pubs"] = int64(nsub), int64(npub)
@@ -129,6 +135,9 @@ func expandBraces(pat string) []string {
 }
 
 func runC18(t *testing.T, p *Plan) *Outcome {
+	if p.Profile == "flood" {
+		return runC18Flood(t, p)
+	}
 	o := &Outcome{Trivial: true}
 	var names []string
 	fail := func(sig, detail string) {
